@@ -38,6 +38,10 @@ type RespScript struct {
 	Status  int    `json:"status"`
 	Reason  string `json:"reason,omitempty"`
 	Interim bool   `json:"interim103,omitempty"` // send "103 Early Hints" first
+	// Trailer: trailer fields sent after the last chunk (chunked framing only); TrailerAnnounced: their
+	// names are announced in a Trailer header field of the response head.
+	Trailer          []KV `json:"trailer,omitempty"`
+	TrailerAnnounced bool `json:"trailer_announced,omitempty"`
 	// InterimCode: with Interim, the status of the interim response (0 = 103): 100 Continue,
 	// 102 Processing, 103 Early Hints
 	InterimCode int `json:"interim_code,omitempty"`
@@ -342,6 +346,13 @@ func (b *RawBackend) play(c net.Conn, req *http.Request, s *RespScript, ex *exch
 	case "chunked":
 		if bodyAllowed {
 			w.WriteString("Transfer-Encoding: chunked\r\n")
+			if len(s.Trailer) > 0 && s.TrailerAnnounced {
+				names := make([]string, 0, len(s.Trailer))
+				for _, kv := range s.Trailer {
+					names = append(names, kv.K)
+				}
+				fmt.Fprintf(w, "Trailer: %s\r\n", strings.Join(names, ", "))
+			}
 		}
 	case "close":
 		w.WriteString("Connection: close\r\n")
@@ -391,7 +402,11 @@ func (b *RawBackend) play(c net.Conn, req *http.Request, s *RespScript, ex *exch
 		}
 	}
 	if s.Framing == "chunked" {
-		w.WriteString("0\r\n\r\n")
+		w.WriteString("0\r\n")
+		for _, kv := range s.Trailer {
+			fmt.Fprintf(w, "%s: %s\r\n", kv.K, kv.V)
+		}
+		w.WriteString("\r\n")
 	}
 	_ = w.Flush()
 	if s.Fault == "short-body" {
@@ -643,6 +658,7 @@ type RawResponse struct {
 	Chunked    bool
 	DeclaredCL int64 // -1 if the response carried no Content-Length
 	Close      bool
+	Trailer    http.Header // trailer fields received after the body (nil: none)
 }
 
 // ClientConn is one raw TCP connection to the front.
@@ -750,6 +766,14 @@ func (cc *ClientConn) Finish(out *RawResponse, resp *http.Response, prefix []byt
 		out.BodyErr = err.Error()
 	}
 	_ = resp.Body.Close()
+	if len(resp.Trailer) > 0 {
+		out.Trailer = http.Header{}
+		for k, vs := range resp.Trailer {
+			if len(vs) > 0 { // announced names are pre-seeded with nil until the trailer section is read
+				out.Trailer[k] = append([]string(nil), vs...)
+			}
+		}
+	}
 }
 
 // Do performs one complete exchange on a fresh connection.
